@@ -21,9 +21,10 @@ import os
 import random
 
 from vlib import core
+from props import c19_source
 
 PID = 'C19'
-GENERATORS = [('endpoints2coq.py', 'Gen/AccessTable.v')]
+GENERATORS = [('endpoints2coq.py', 'Gen/AccessTable.v'), ('security2coq.py', 'Gen/SecurityGen.v')]
 META = {
     'text': 'Coq: fe._static modelled function-for-function with the operating system (Path.resolve/is_dir/is_file, each may raise) as unconstrained Section oracles; proved for ALL oracles, request strings and roots: whatever is served is the very path that was checked, is a prefix-extension of a resolved root and a regular file (C19_contained), and files inside a root are served (non-vacuity). Access: allow-list, is_sanctioned decision and the endpoint registrations are regenerated from the Python source on every run (fail-closed translator, effect markers per handler); proved: an anonymous caller with certificates configured can only invoke allow-listed endpoints, those are GET-only, non-command, effect-free; a raising/missing hook denies; denied never invokes. Tied to the real code by correspondence on real directory trees with recorded OS answers and by driving every endpoint x verb x certificate x hook through the real twisted render path.',
     'note': 'Trusted: Coq kernel; endpoints2coq.py translator (validated each run against the runtime resource tree: uris, methods, handler identities, routing); the recorder wrappers around pathlib.Path.resolve/is_dir/is_file; the fake twisted request/transport; canonical Path.resolve (OS). Not covered: Twisted URL decoding before render; the style-sheet inlining of the deprecated site after a file was accepted; TOCTOU between check and open. No axioms.',
@@ -396,6 +397,7 @@ def access_half(ctx, gen_ok):
     out = ctx.harness('drive_access.py',
                       {'verbs': VERBS, 'hooks': hooks, 'extra_paths': True})
     eps = out['endpoints']
+    ctx.extra['access_out'] = out
     ctx.log('access driver done')
     uris = [e['uri'] for e in eps]
     # ---- oracle on the implementation alone --------------------------------
@@ -576,10 +578,14 @@ def run(ctx):
 
     # ---- generate + prove ---------------------------------------------------
     ok, msg = ctx.generate('endpoints2coq.py', 'Gen/AccessTable.v')
+    gsec = c19_source.security_generate(ctx)
     ctx.log('generated')
     r = ctx.coq_props() if ok else {'ok': False, 'failing': 'translator', 'log': msg}
-    if not ok:
-        ctx.coq_props()
+    if not ok or not gsec['ok']:
+        if not ok:
+            ctx.coq_props()
+        # a refused source leaves the previous Gen file in place: what was
+        # proved is not about the source of today
         ctx.cov['discharged'] = 0
     static_model = True
     ctx.log('proofs: %s' % r['ok'])
@@ -595,6 +601,10 @@ def run(ctx):
         mism_s, ns = static_half(ctx)
     gen_ok = ok and (r['ok'] or ctx.coq_build(['Model/Access.vo'])[0])
     mism_a, na = access_half(ctx, gen_ok)
+    # the source tie of the access decision (translation + proof): validated
+    # against the real functions and the real render path; when it broke, the
+    # property is searched on the python functions
+    c19_source.security_validate(ctx, gsec, ctx.extra.get('access_out'))
     found = ctx.nviol > before or bool(ctx.known_hits)
 
     if not ok and not found:
